@@ -65,12 +65,13 @@ type Beh struct {
 
 type Job struct {
 	Table      []Row `json:"table"`
-	Lens       []int `json:"lens"`        // sweep: raw writer + reader
-	PackLens   []int `json:"pack_lens"`   // sweep: WriteMsgToTCP / PackTCPBuffer
-	TransLens  []int `json:"trans_lens"`  // sweep: client transports
+	Lens       []int `json:"lens"`       // sweep: raw writer + reader
+	PackLens   []int `json:"pack_lens"`  // sweep: WriteMsgToTCP / PackTCPBuffer
+	TransLens  []int `json:"trans_lens"` // sweep: client transports
 	Behaviours []Beh `json:"behaviours"`
 	Streams    int   `json:"streams"`
 	ServerRuns int   `json:"server_runs"`
+	StallRuns  int   `json:"stall_runs"`
 	ServerK    int   `json:"server_k"`
 	TraceEvery int   `json:"trace_every"` // emit the event traces of every n-th sweep length
 }
@@ -115,11 +116,17 @@ type chunkReader struct {
 	pos    int
 	si     int
 	log    func(ev)
+	tmoAt  map[int]bool // stream positions at which the next Read fails once with a deadline error
 }
 
 func (c *chunkReader) Read(p []byte) (int, error) {
 	if len(p) == 0 {
 		return 0, nil
+	}
+	if c.tmoAt[c.pos] {
+		delete(c.tmoAt, c.pos)
+		c.log(ev{"ev": "Timeout"})
+		return 0, os.ErrDeadlineExceeded
 	}
 	if c.pos >= len(c.data) {
 		c.log(ev{"ev": "EOF"})
@@ -168,9 +175,13 @@ func (c *chunkReader) Read(p []byte) (int, error) {
 
 // readLoop calls the real ReadRawMsgFromTCP until it reports an error; returns the reader trace,
 // the delivered lengths, whether every delivered buffer was the right slice of the stream.
-func readLoop(data []byte, opaque []bool, script []int) (events []ev, lens []int, allEq bool, panicked string) {
+func readLoop(data []byte, opaque []bool, script []int, tmo ...int) (events []ev, lens []int, allEq bool, panicked string) {
 	events = []ev{{"ev": "Stream"}}
-	cr := &chunkReader{data: data, opaque: opaque, script: append([]int(nil), script...), log: func(e ev) { events = append(events, e) }}
+	cr := &chunkReader{data: data, opaque: opaque, script: append([]int(nil), script...), log: func(e ev) { events = append(events, e) },
+		tmoAt: map[int]bool{}}
+	for _, t := range tmo {
+		cr.tmoAt[t] = true
+	}
 	off := 0
 	allEq = true
 	defer func() {
@@ -606,8 +617,11 @@ func replay(job *Job, b Beh) {
 	var script []int
 	ap, last := 0, 0
 	cut := 0
+	var tmo []int
 	for _, s := range b.Steps {
 		switch s.A {
+		case "T":
+			tmo = append(tmo, last)
 		case "R":
 			ap += s.K
 			cp := mapPos(ap)
@@ -632,7 +646,7 @@ func replay(job *Job, b Beh) {
 		}
 		off += 2 + f.conc
 	}
-	evs, lens, allEq, pan := readLoop(data, opaque, script)
+	evs, lens, allEq, pan := readLoop(data, opaque, script, tmo...)
 	want := make([]int, len(b.Delivered))
 	for i, n := range b.Delivered {
 		want[i] = mapLen(b.Map, n)
@@ -701,6 +715,254 @@ func randomStream(rng *rand.Rand, i int) (data []byte, opaque []bool, script []i
 	}
 	script = chunkScript(rng, len(data), rng.Intn(4))
 	return
+}
+
+// ---------------------------------------------------------------------------------------------
+// a reply that stalls inside a frame for longer than the idle timeout (pipeline transport)
+// ---------------------------------------------------------------------------------------------
+
+// dlConn: harness transport.NetConn with REAL read deadlines. Data is fed by the scenario; every
+// Read call that returns is logged (Read / Timeout / EOF), every Write call is recorded.
+type dlConn struct {
+	mu       sync.Mutex
+	buf      []byte
+	opq      []bool
+	deadline time.Time
+	wake     chan struct{}
+	closed   bool
+	writes   chan []byte
+	log      func(ev)
+}
+
+func newDlConn(log func(ev)) *dlConn {
+	return &dlConn{wake: make(chan struct{}, 1), writes: make(chan []byte, 64), log: log}
+}
+
+func (c *dlConn) poke() {
+	select {
+	case c.wake <- struct{}{}:
+	default:
+	}
+}
+
+func (c *dlConn) feed(b []byte, opaque []bool) {
+	c.mu.Lock()
+	c.buf = append(c.buf, b...)
+	c.opq = append(c.opq, opaque...)
+	c.mu.Unlock()
+	c.poke()
+}
+
+func (c *dlConn) Read(p []byte) (int, error) {
+	for {
+		c.mu.Lock()
+		if len(c.buf) > 0 {
+			n := copy(p, c.buf)
+			items := []int{}
+			run := 0
+			for i := 0; i < n; i++ {
+				if c.opq[i] {
+					run++
+					continue
+				}
+				if run > 0 {
+					items = append(items, -run)
+					run = 0
+				}
+				items = append(items, int(c.buf[i]))
+			}
+			if run > 0 {
+				items = append(items, -run)
+			}
+			c.buf, c.opq = c.buf[n:], c.opq[n:]
+			c.log(ev{"ev": "Read", "items": items})
+			c.mu.Unlock()
+			return n, nil
+		}
+		if c.closed {
+			c.log(ev{"ev": "EOF"})
+			c.mu.Unlock()
+			return 0, io.EOF
+		}
+		dl := c.deadline
+		if !dl.IsZero() && !time.Now().Before(dl) {
+			c.log(ev{"ev": "Timeout"})
+			c.mu.Unlock()
+			return 0, os.ErrDeadlineExceeded
+		}
+		c.mu.Unlock()
+		var t <-chan time.Time
+		if !dl.IsZero() {
+			t = time.After(time.Until(dl))
+		}
+		select {
+		case <-c.wake:
+		case <-t:
+		}
+	}
+}
+
+func (c *dlConn) Write(b []byte) (int, error) {
+	c.mu.Lock()
+	closed := c.closed
+	c.mu.Unlock()
+	if closed {
+		return 0, net.ErrClosed
+	}
+	c.writes <- append([]byte(nil), b...)
+	return len(b), nil
+}
+
+func (c *dlConn) Close() error {
+	c.mu.Lock()
+	if !c.closed {
+		c.closed = true
+		c.log(ev{"ev": "Close"})
+	}
+	c.mu.Unlock()
+	c.poke()
+	return nil
+}
+func (c *dlConn) SetReadDeadline(t time.Time) error {
+	c.mu.Lock()
+	c.deadline = t
+	c.mu.Unlock()
+	c.poke()
+	return nil
+}
+func (c *dlConn) SetDeadline(t time.Time) error      { return c.SetReadDeadline(t) }
+func (c *dlConn) SetWriteDeadline(t time.Time) error { return nil }
+
+// stallRun: two pipelined queries on one TCP pipeline connection; the peer answers the first, then
+// sends the header and a part of the second reply, stalls until the connection's read deadline has
+// fired inside the frame, then sends the rest. The rest is built so that a reader which starts a
+// NEW frame there finds a well-formed frame carrying the second query's id.
+func stallRun(rng *rand.Rand, run int) {
+	var mu sync.Mutex
+	events := []ev{{"ev": "Stream"}}
+	log := func(e ev) { events = append(events, e) } // callers hold mu or conn.mu; see below
+	conn := newDlConn(func(e ev) { mu.Lock(); log(e); mu.Unlock() })
+	idle := 250 * time.Millisecond
+	tr := transport.NewPipelineTransport(transport.PipelineOpts{
+		DialContext: func(ctx context.Context) (transport.DnsConn, error) {
+			return transport.NewDnsConn(transport.TraditionalDnsConnOpts{WithLengthHeader: true, IdleTimeout: idle, MaxConcurrentQuery: 8}, conn), nil
+		},
+		MaxConcurrentQueryWhileDialing: 8,
+	})
+	defer tr.Close()
+	type xres struct {
+		r   []byte
+		err error
+	}
+	qs := [][]byte{pattern(40+rng.Intn(100), byte(run)), pattern(40+rng.Intn(100), byte(run+91))}
+	resc := []chan xres{make(chan xres, 1), make(chan xres, 1)}
+	ctx, cancel := context.WithTimeout(context.Background(), 40*time.Second)
+	defer cancel()
+	qid := make([][]byte, 2) // the transport's own ids, learnt from the written frames
+	inconclusive := func(why string) {
+		vhOut(Out{Kind: "stall", What: "stall-inconclusive", Idx: run, Bad: "", Class: why})
+	}
+	for i := 0; i < 2; i++ {
+		i := i
+		qs[i][2] &^= 0x80
+		go func() {
+			r, err := tr.ExchangeContext(ctx, qs[i])
+			x := xres{err: err}
+			if r != nil {
+				x.r = append([]byte(nil), (*r)...)
+			}
+			resc[i] <- x
+		}()
+		select {
+		case w := <-conn.writes:
+			if len(w) < 4 {
+				inconclusive("short write")
+				return
+			}
+			qid[i] = w[2:4]
+		case <-time.After(15 * time.Second):
+			inconclusive("query not written")
+			return
+		}
+	}
+	mkRep := func(i, n int) []byte {
+		b := pattern(n, byte(7*i+run))
+		copy(b[:2], qid[i])
+		b[2] |= 0x80
+		return b
+	}
+	frame := func(m []byte) ([]byte, []bool) {
+		f := append([]byte{byte(len(m) >> 8), byte(len(m))}, m...)
+		o := make([]bool, len(f))
+		for k := 2; k < len(f); k++ {
+			o[k] = true
+		}
+		return f, o
+	}
+	outEv := func(i int, x xres, want []byte) {
+		mu.Lock()
+		defer mu.Unlock()
+		if x.err != nil {
+			log(ev{"ev": "Err", "err": x.err.Error()})
+			return
+		}
+		// the caller's id is restored by the transport: compare modulo bytes 0-1
+		log(ev{"ev": "Out", "len": len(x.r), "eq": want != nil && len(x.r) == len(want) && bytes.Equal(x.r[2:], want[2:])})
+	}
+	// reply 1, completely
+	r1 := mkRep(0, 60+rng.Intn(400))
+	f1, o1 := frame(r1)
+	conn.feed(f1, o1)
+	select {
+	case x := <-resc[0]:
+		outEv(0, x, r1)
+	case <-time.After(15 * time.Second):
+		inconclusive("first reply not delivered")
+		return
+	}
+	// reply 2 = part A | part B, part B looking like a complete frame for query 2 on its own
+	la, lb := 20+rng.Intn(200), 30+rng.Intn(300)
+	partB := pattern(2+lb, byte(run+5))
+	partB[0], partB[1] = byte(lb>>8), byte(lb)
+	copy(partB[2:4], qid[1])
+	r2 := append(mkRep(1, la), partB...)
+	f2, o2 := frame(r2)
+	cutAt := 2 + la
+	if run%3 == 1 {
+		cutAt = 1 // stall inside the length header
+	}
+	conn.feed(f2[:cutAt], o2[:cutAt])
+	// wait until a Read has failed with the deadline (event driven; bounded)
+	sawTimeout := func() bool {
+		mu.Lock()
+		defer mu.Unlock()
+		for _, e := range events {
+			if e["ev"] == "Timeout" || e["ev"] == "Close" {
+				return true
+			}
+		}
+		return false
+	}
+	for t0 := time.Now(); !sawTimeout(); time.Sleep(10 * time.Millisecond) {
+		if time.Since(t0) > 20*time.Second {
+			inconclusive("no read deadline fired (waiting-reply timeout in force)")
+			return
+		}
+	}
+	conn.feed(f2[cutAt:], o2[cutAt:])
+	select {
+	case x := <-resc[1]:
+		outEv(1, x, r2)
+	case <-time.After(25 * time.Second):
+		inconclusive("second exchange did not return")
+		return
+	}
+	tr.Close()
+	conn.Close()
+	mu.Lock()
+	evs := append([]ev(nil), events...)
+	mu.Unlock()
+	vhOut(Out{Kind: "stall", Idx: run, Events: evs})
 }
 
 // ---------------------------------------------------------------------------------------------
@@ -884,5 +1146,17 @@ func main() {
 	for i := 0; i < job.ServerRuns; i++ {
 		serverRun(rng, job.ServerK, i)
 	}
+	var swg sync.WaitGroup
+	for i := 0; i < job.StallRuns; i++ {
+		swg.Add(1)
+		go func(i int, seed int64) {
+			defer swg.Done()
+			stallRun(rand.New(rand.NewSource(seed)), i)
+		}(i, rng.Int63())
+		if i%16 == 15 {
+			swg.Wait()
+		}
+	}
+	swg.Wait()
 	vh.Flush()
 }
